@@ -10349,6 +10349,38 @@ CK_RV SoftHSM::generateGOST
 	return rv;
 }
 
+// Compute the check value of a derived secret key from the key value that is
+// stored in CKA_VALUE, using the key class that belongs to the key type
+static bool getDerivedKeyCheckValue(CK_KEY_TYPE keyType, const ByteString& keyValue, ByteString& checkValue)
+{
+	SymmetricKey generic;
+	DESKey des;
+	AESKey aes;
+
+	switch (keyType)
+	{
+		case CKK_GENERIC_SECRET:
+			generic.setKeyBits(keyValue);
+			generic.setBitLen(keyValue.size() * 8);
+			checkValue = generic.getKeyCheckValue();
+			return true;
+		case CKK_DES:
+		case CKK_DES2:
+		case CKK_DES3:
+			des.setKeyBits(keyValue);
+			des.setBitLen(keyValue.size() * 7);
+			checkValue = des.getKeyCheckValue();
+			return true;
+		case CKK_AES:
+			aes.setKeyBits(keyValue);
+			aes.setBitLen(keyValue.size() * 8);
+			checkValue = aes.getKeyCheckValue();
+			return true;
+		default:
+			return false;
+	}
+}
+
 // Derive a DH secret
 CK_RV SoftHSM::deriveDH
 (CK_SESSION_HANDLE hSession,
@@ -10597,25 +10629,9 @@ CK_RV SoftHSM::deriveDH
 				}
 
 				// Get the KCV
-				switch (keyType)
+				if (!getDerivedKeyCheckValue(keyType, secretValue, plainKCV))
 				{
-					case CKK_GENERIC_SECRET:
-						secret->setBitLen(byteLen * 8);
-						plainKCV = secret->getKeyCheckValue();
-						break;
-					case CKK_DES:
-					case CKK_DES2:
-					case CKK_DES3:
-						secret->setBitLen(byteLen * 7);
-						plainKCV = ((DESKey*)secret)->getKeyCheckValue();
-						break;
-					case CKK_AES:
-						secret->setBitLen(byteLen * 8);
-						plainKCV = ((AESKey*)secret)->getKeyCheckValue();
-						break;
-					default:
-						bOK = false;
-						break;
+					bOK = false;
 				}
 
 				if (isPrivate)
@@ -10950,25 +10966,9 @@ CK_RV SoftHSM::deriveECDH
 				}
 
 				// Get the KCV
-				switch (keyType)
+				if (!getDerivedKeyCheckValue(keyType, secretValue, plainKCV))
 				{
-					case CKK_GENERIC_SECRET:
-						secret->setBitLen(byteLen * 8);
-						plainKCV = secret->getKeyCheckValue();
-						break;
-					case CKK_DES:
-					case CKK_DES2:
-					case CKK_DES3:
-						secret->setBitLen(byteLen * 7);
-						plainKCV = ((DESKey*)secret)->getKeyCheckValue();
-						break;
-					case CKK_AES:
-						secret->setBitLen(byteLen * 8);
-						plainKCV = ((AESKey*)secret)->getKeyCheckValue();
-						break;
-					default:
-						bOK = false;
-						break;
+					bOK = false;
 				}
 
 				if (isPrivate)
@@ -11304,25 +11304,9 @@ CK_RV SoftHSM::deriveEDDSA
 				}
 
 				// Get the KCV
-				switch (keyType)
+				if (!getDerivedKeyCheckValue(keyType, secretValue, plainKCV))
 				{
-					case CKK_GENERIC_SECRET:
-						secret->setBitLen(byteLen * 8);
-						plainKCV = secret->getKeyCheckValue();
-						break;
-					case CKK_DES:
-					case CKK_DES2:
-					case CKK_DES3:
-						secret->setBitLen(byteLen * 7);
-						plainKCV = ((DESKey*)secret)->getKeyCheckValue();
-						break;
-					case CKK_AES:
-						secret->setBitLen(byteLen * 8);
-						plainKCV = ((AESKey*)secret)->getKeyCheckValue();
-						break;
-					default:
-						bOK = false;
-						break;
+					bOK = false;
 				}
 
 				if (isPrivate)
@@ -11897,29 +11881,10 @@ CK_RV SoftHSM::deriveSymmetric
 				}
 
 				// Get the KCV
-				SymmetricKey* secret = new SymmetricKey();
-				secret->setKeyBits(secretValue);
-				switch (keyType)
+				if (!getDerivedKeyCheckValue(keyType, secretValue, plainKCV))
 				{
-					case CKK_GENERIC_SECRET:
-						secret->setBitLen(byteLen * 8);
-						plainKCV = secret->getKeyCheckValue();
-						break;
-					case CKK_DES:
-					case CKK_DES2:
-					case CKK_DES3:
-						secret->setBitLen(byteLen * 7);
-						plainKCV = ((DESKey*)secret)->getKeyCheckValue();
-						break;
-					case CKK_AES:
-						secret->setBitLen(byteLen * 8);
-						plainKCV = ((AESKey*)secret)->getKeyCheckValue();
-						break;
-					default:
-						bOK = false;
-						break;
+					bOK = false;
 				}
-				delete secret;
 
 				if (isPrivate)
 				{
